@@ -333,6 +333,44 @@ INTO_LIFETIME_PROBES = [
 ]
 
 
+# Types whose last field is unsized (`T: ?Sized`): everything `#[derive]` accepts there has to work for the educed impls too
+# (educed Debug hands every field to the `core::fmt` builders as `&T`, which has to coerce to `&dyn Debug` and so needs
+#  `T: Sized` - known finding `debug-unsized-field`; the probes with Debug are matched against it, the others must compile)
+UNSIZED_PROBES = [
+    "#[derive(Educe)]\n#[educe(Debug)]\npub struct U0<T: ?Sized + core::fmt::Debug> { #[educe(Debug(method(crate::m_dbg)))] pub a: u8, pub b: T }",
+    "#[derive(Educe)]\n#[educe(Debug)]\npub struct U1<T: ?Sized + core::fmt::Debug> { pub a: u8, pub b: T }",
+    "#[derive(Educe)]\n#[educe(PartialEq, Eq, PartialOrd, Ord, Hash)]\npub struct U4<T: ?Sized + Ord + core::hash::Hash> { pub a: u8, pub b: T }",
+    "#[derive(Educe)]\n#[educe(Debug(name = false), PartialEq)]\npub struct U2<T: ?Sized + PartialEq + core::fmt::Debug>(pub u8, #[educe(Debug(method(crate::m_dbg)))] pub u8, pub T);",
+    "#[derive(Educe)]\n#[educe(Hash, PartialEq)]\npub struct U3<T: ?Sized + core::hash::Hash + PartialEq> { #[educe(Hash(method(crate::m_hash)), PartialEq(method(crate::m_eq)))] pub a: u8, pub b: T }",
+]
+
+
+def unsized_probe(tie, so, work):
+    src = ("#![allow(dead_code)]\nuse educe::Educe;\n"
+           "pub fn m_dbg(a: &u8, f: &mut core::fmt::Formatter<'_>) -> core::fmt::Result { write!(f, \"<{}>\", a) }\n"
+           "pub fn m_hash<H: core::hash::Hasher>(a: &u8, h: &mut H) { h.write_u8(*a) }\npub fn m_eq(a: &u8, b: &u8) -> bool { a == b }\n")
+    hits = []
+    for k, d in enumerate(UNSIZED_PROBES):
+        path = os.path.join(work, "unsized_%d.rs" % k)
+        open(path, "w").write(src + d + "\n")
+        rc, diags = compile_lib(path, so)
+        tie["evaluations"] += 1
+        errs = [x for x in diags if x.get("level") == "error"]
+        if errs:
+            msg = (errs[0].get("message") or "")[:200]
+            known = [f for f in common.known_findings() if f.get("status") == "open" and f.get("property") == "C01"
+                     and f.get("matcher", {}).get("kind") == "debug-unsized-field"]
+            if known and "Debug" in d.split("\n")[1] and "the size for values of type" in msg:
+                hits.append(re.search(r"struct (U\d)", d).group(1))
+            else:
+                tie["failing"].append({"what": "generated code for an accepted definition with an unsized last field does not compile", "rust_source": d,
+                                       "observed": msg})
+    if hits:
+        tie["known"].append("educed Debug on a type whose last field is unsized (`T: ?Sized`) does not compile: the field is handed to the builder as `&T`, "
+                            "which must coerce to `&dyn Debug` (%s)" % ", ".join(hits))
+    tie["extra"]["unsized_probes"] = len(UNSIZED_PROBES)
+
+
 def into_lifetime_probe(tie, so, work):
     hits = []
     for k, src in enumerate(INTO_LIFETIME_PROBES):
@@ -467,6 +505,7 @@ def main(tier):
             tie["broken"].append("harness (%s): rustc failed without a located diagnostic" % label)
         tie["distinct_nontrivial"] += len(by_id) - (len(tie["failing"]) - before)
     into_lifetime_probe(tie, so, work)
+    unsized_probe(tie, so, work)
     # acceptance and the outcome model (B4) on the generic pool
     try:
         real = attr.expand_real(gdefs, group=True)
